@@ -29,7 +29,7 @@ META = dict(
     bounds=dict(quick=dict(methods=len(METHODS), single_fault="every access index k of every method, kinds vanish / deny(EACCES) / deny(EPERM) / zombie", two_faults=f"deny at i, vanish at j>i for {len(TWO_FAULT_Q)} methods"),
                 thorough=dict(methods=len(METHODS), single_fault="as quick", two_faults="all methods")),
     outside=["EIO/ENOMEM and faults on system-wide files", "more than two faults in one call"],
-    labels=["only-psutil-errors[vanish]", "only-psutil-errors[deny]", "only-psutil-errors[zombie]", "carries-pid", "AD-only-if-denied", "Zombie-only-if-zombie", "gone-stays-gone", "process_iter-skips", "as_dict-ad_value", "relative-result"],
+    labels=["only-psutil-errors[vanish]", "only-psutil-errors[deny]", "only-psutil-errors[zombie]", "carries-pid", "AD-only-if-denied", "Zombie-only-if-zombie", "gone-stays-gone", "process_iter-skips", "as_dict-ad_value", "relative-result", "relative-vanish-is-not-an-error"],
 )
 
 
@@ -129,6 +129,9 @@ def relative(ctx, method, kind):
             r, exc = None, e
         info = f"fault on pid {rel}: {k.fault.fired[:2]} after {k.naccess} accesses"
         classify(ctx, exc, kind, method, info, pids=(P, rel))
+        if kind == "vanish":
+            # a relative that goes away while the tree is walked is left out / answered with None: the (live) object's call does not fail
+            ctx.prove(exc is None, "relative-vanish-is-not-an-error", detail=f"{method}: {exc!r} | {info}")
         if exc is None and method.startswith("children"):
             got = sorted(c.pid for c in r)
             # the sibling that is not affected is always reported; the affected child only if it is still there
@@ -156,6 +159,27 @@ def double(ctx, method):
         except Exception as e:  # noqa: BLE001
             exc = e
         classify(ctx, exc, "deny+vanish", method, f"faults={k.fault.fired[:3]}")
+
+
+@harness("C03.vanish_then_deny", quick=[dict(method=m) for m in ("cmdline", "memory_info", "num_fds", "cwd", "environ", "nice", "threads", "name")], thorough=[dict(method=m) for m in METHODS], timeout_ms=5000)
+def vanish_then_deny(ctx, method):
+    """the process vanishes at access i and a LATER access j > i is refused (EACCES) instead of failing with "no such file": the error
+    translation itself re-reads /proc/<pid>/stat (zombie check) after the first failure"""
+    k = build(ctx)
+    with k.installed():
+        p = psutil.Process(P)
+        k.fault.prefix = f"/proc/{P}"
+        k.naccess = 0
+        i = ctx.int("i", 0, 400)
+        j = ctx.int("j", 0, 400)
+        ctx.assume(j > i)
+        k.fault.vanish_at, k.fault.deny_at = i, j
+        try:
+            call(p, method)
+            exc = None
+        except Exception as e:  # noqa: BLE001
+            exc = e
+        classify(ctx, exc, "vanish+deny", method, f"faults={k.fault.fired[:3]}")
 
 
 @harness("C03.deny_twice", quick=[dict(method=m) for m in ("as_dict", "memory_full_info", "open_files")], thorough=[dict(method=m) for m in METHODS], timeout_ms=5000)
